@@ -10,6 +10,7 @@ mod cldb;
 mod cldbsrc;
 mod conv;
 mod deps;
+mod opt;
 mod reader;
 mod repl;
 mod rich;
@@ -30,6 +31,7 @@ fn main() {
         "base" => base::run(&rest),
         "compile" => compile::run(&rest),
         "conv" => conv::run(&rest),
+        "opt" => opt::run(&rest),
         "atomic" => atomic::run(&rest),
         "atomic-child" => atomic::child(&rest),
         "deps" => deps::run(&rest),
